@@ -104,7 +104,18 @@ fn observed<T>(r: &Result<T, ParserError>) -> (Verdict, Option<String>) {
 
 /// judge one input through both entry points; returns the verdict class of the initial parse
 pub fn judge(bytes: &[u8], rank: u64, out: &mut Vec<Violation>) -> String {
-    let base = subject::parse(b"<a x=\"1\"><b/></a>").expect("base state");
+    let base = match subject::parse(b"<a x=\"1\"><b/></a>") {
+        Ok(b) => b,
+        Err(e) => {
+            out.push(Violation {
+                class: "spurious-error".into(),
+                summary: format!("into_struct rejects the valid document <a x=\"1\"><b/></a> (after earlier calls in this process): {}", e),
+                replay: json!({"bytes_hex": hex(b"<a x=\"1\"><b/></a>")}),
+                rank,
+            });
+            return "ok".into();
+        }
+    };
     let mut class = String::new();
     for initial in [true, false] {
         let want = expected(bytes, initial);
@@ -160,6 +171,9 @@ pub fn spaces(ctx: &Ctx) -> Vec<Box<dyn InputSpace>> {
         Box::new(Tokens { tokens: xml_tokens(), max_len: ctx.tier.pick(5, 6) }),
         Box::new(Edits::new(docs, false)),
     ];
+    // long names / values / character data with a multi-byte character at every offset, and deep nesting
+    v.push(Box::new(super::c07::Listed(super::c07::long_inputs(ctx.tier.pick(300, 1100)))));
+    v.push(Box::new(super::c07::Listed((0..(super::c07::MAX_DEPTH * super::c07::DEPTH_TEMPLATES) as u64).map(super::c07::depth_case).collect())));
     if ctx.tier == crate::ctx::Tier::Thorough {
         let mut cfg2 = SpaceCfg::plain(2);
         cfg2.kinds = vec![Kind::Text, Kind::CData, Kind::Comment];
